@@ -138,7 +138,14 @@ CMR_ERROR CMRlisthashtableRemove(
   CMR_LISTHASHTABLE_ENTRY entry /**< Entry to be removed. */
 );
 
+#if defined(DISCOPT_CMR_VERIF) && defined(DISCOPT_CMR_VERIF_HASH_RANGE)
+/* Verification hook: a tiny hash range forces collisions between almost all rows/columns. */
+#define RANGE_SIGNED_HASH (DISCOPT_CMR_VERIF_HASH_RANGE)
+#define DISCOPT_CMR_VERIF_HASH_RANGE_ACTIVE
+#endif
+#ifndef DISCOPT_CMR_VERIF_HASH_RANGE_ACTIVE
 #define RANGE_SIGNED_HASH (LLONG_MAX/2)
+#endif
 
 /**
  * \brief Projects \p value into the range [-RANGE_SIGNED_HASH, +RANGE_SIGNED_HASH] via a modulo computation.
